@@ -859,4 +859,46 @@ theorem win_replicate (b j n : Nat) (c : β) : win b j (List.replicate n c) = Li
   congr 1
   omega
 
+-- LazyCall after the fix ---------------------------------------------------------------------------------------------
+
+/-- `_split_extra` yields the row windows of `extra` as long as `x` has batches: no early stop -/
+theorem splitExtraF_eq (b n : Nat) (extra : D β) (hu : uniform n extra = true) :
+    splitExtraF b (nChunks b n) extra = tab (nChunks b n) (fun j => mapLeaves (win b j) extra) := by
+  unfold splitExtraF
+  by_cases h : noArray extra = true
+  · simp only [h, if_true]
+    rw [← tab_const]
+    simp [mapLeaves_noArray _ extra h]
+  · simp only [h, Bool.false_eq_true, if_false]
+    rw [splitF_eq b n extra hu]
+    simp [h]
+
+/-- the shared loop of `LazyCall.__iter__` on the `ceil(n/b)` row windows of `X`: batch `j` is the `j`-th row
+    window of the eager value `{**g(X), **extra}` -/
+theorem lazyIterOverF_tab {γ : Type} (g : D β → D γ) (X : D β) (gx ex : List (String × D γ)) (b n : Nat)
+    (hgx : g X = .node .dict gx)
+    (hg : ∀ j, g (mapLeaves (win b j) X) = mapLeaves (win b j) (g X))
+    (hue : uniform n (D.node .dict ex) = true) :
+    lazyIterOverF g (tab (nChunks b n) fun j => mapLeaves (win b j) X) (.node .dict ex) b =
+      some (tab (nChunks b n) fun j => mapLeaves (win b j) (D.node .dict (dictUpdate gx ex))) := by
+  unfold lazyIterOverF
+  rw [tab_length, splitExtraF_eq b n _ hue, zipWith_tab, Nat.min_self]
+  have hpiece : ∀ j, updateD (g (mapLeaves (win b j) X)) (mapLeaves (win b j) (D.node .dict ex)) =
+      some (mapLeaves (win b j) (D.node .dict (dictUpdate gx ex))) := by
+    intro j
+    rw [hg j, hgx]
+    simp only [mapLeaves, updateD, dictUpdate_map]
+  simp only [hpiece]
+  exact mapM_id_tab _ _
+
+theorem merge_windows (b n : Nat) (e : D α) (hwf : WF e) (hu : uniform n e = true) (hb : 0 < b) (hn : 0 < n) :
+    merge (tab (nChunks b n) fun j => mapLeaves (win b j) e) = some e := by
+  rw [merge_tab b _ e hwf (nChunks_pos b n hb hn)]
+  congr 1
+  apply mapLeaves_id_of _ n _ e hu
+  intro r hr
+  apply List.take_of_length_le
+  rw [hr]
+  exact nChunks_mul_ge b n hb
+
 end TfPwaV.Data
